@@ -119,7 +119,7 @@ Proof.
   - pose proof (Forall_inv Hbl) as (Hbw & Hb). pose proof (Forall_inv_tail Hbl) as Hbl'.
     assert (E2 : st_skip (rflat_wbs (WB token bw b :: bl') ++ tail) = rflat_wbs (WB token [] b :: bl') ++ tail).
     { unfold flat_wbs, st_skip. cbn [map List.concat flat_wb app]. rewrite <- !app_assoc.
-      rewrite (skip_app_triv token tok_class bw _ Hbw). apply (flat_bk_skip token tok_class b _ Hb). }
+      rewrite (skip_app_triv token tok_class bw _ Hbw). apply (flat_bk_skip token tok_class t_text tok_num b _ Hb). }
     rewrite E2.
     assert (Hbl0 : Forall rwf_wb (WB token [] b :: bl')) by (constructor; [split; [constructor | exact Hb] | exact Hbl']).
     rewrite (blocks_spelled token tok_class t_text tok_num ty_name _ Hbl0 [] tail F Hnb).
@@ -145,7 +145,7 @@ Proof.
   { destruct (su_body u) as [l|]; cbn [flat_body]; [|apply scoped_nil]. destruct Hbody as (Hl & _).
     exact (proj1 (proj2 (wf_scoped_s token tok_class t_text tok_num op_level)) l true Hl). }
   apply scoped_cons; [rewrite Ckw; reflexivity|]. apply scoped_app; [apply scoped_triv; exact H0|].
-  apply scoped_cons; [rewrite Cnm; reflexivity|]. apply scoped_app; [apply scoped_wbs; exact Hbl|].
+  apply scoped_cons; [rewrite Cnm; reflexivity|]. apply scoped_app; [apply (scoped_wbs token tok_class t_text tok_num); exact Hbl|].
   apply scoped_app; [apply scoped_triv; exact H1|]. apply scoped_app; [exact Sb|]. apply scoped_app; [apply scoped_triv; exact H2|].
   apply scoped_tok. rewrite Cen. reflexivity.
 Qed.
@@ -248,7 +248,7 @@ Example ex_lib_parse :
 Proof. vm_compute. repeat split. Qed.
 
 (* ---- functions:  FUNCTION name : type  blocks  statements  END_FUNCTION ---- *)
-Notation rwf_fwb := (wf_fwb token tok_class).
+Notation rwf_fwb := (wf_fwb token tok_class t_text tok_num).
 Notation ris_tyref := (is_tyref token tok_class).
 Notation rtype_text := (type_text token tok_class t_text ty_name).
 Notation rsize_l := (StStmtProofs.size_l token).
@@ -316,7 +316,7 @@ Proof.
   - pose proof (Forall_inv Hbl) as (Hbw & Hb). pose proof (Forall_inv_tail Hbl) as Hbl'.
     assert (E2 : st_skip (rflat_wbs (WB token bw b :: bl') ++ tail) = rflat_wbs (WB token [] b :: bl') ++ tail).
     { unfold flat_wbs, st_skip. cbn [map List.concat flat_wb app]. rewrite <- !app_assoc.
-      rewrite (skip_app_triv token tok_class bw _ Hbw). apply (flat_bk_skip token tok_class b _ (proj1 Hb)). }
+      rewrite (skip_app_triv token tok_class bw _ Hbw). apply (flat_bk_skip token tok_class t_text tok_num b _ (proj1 Hb)). }
     rewrite E2.
     assert (Hbl0 : Forall rwf_fwb (WB token [] b :: bl')) by (constructor; [split; [constructor | exact Hb] | exact Hbl']).
     rewrite (fblocks_spelled token tok_class t_text tok_num ty_name _ Hbl0 [] tail F Hnb).
@@ -371,7 +371,7 @@ Proof.
   change (sf_ty u :: rflat_wbs (sf_blocks u) ++ sf_w3 u ++ rflat_l (sf_body u) ++ sf_w4 u ++ [sf_en u])
     with ([sf_ty u] ++ (rflat_wbs (sf_blocks u) ++ sf_w3 u ++ rflat_l (sf_body u) ++ sf_w4 u ++ [sf_en u])).
   assert (Srest : rscoped (rflat_wbs (sf_blocks u) ++ sf_w3 u ++ rflat_l (sf_body u) ++ sf_w4 u ++ [sf_en u])).
-  { apply scoped_app; [apply scoped_wbs; apply fwbs_wbs; exact Hbl|].
+  { apply scoped_app; [apply (scoped_wbs token tok_class t_text tok_num); apply fwbs_wbs; exact Hbl|].
     apply scoped_app; [apply scoped_triv; exact H3|].
     apply scoped_app; [exact (proj1 (proj2 (wf_scoped_s token tok_class t_text tok_num op_level)) (sf_body u) true Hl)|].
     apply scoped_app; [apply scoped_triv; exact H4|]. apply scoped_tok. rewrite Cen. reflexivity. }
@@ -382,7 +382,7 @@ Qed.
 
 (* ---- libraries with TYPE blocks ---- *)
 Notation rtb := (stblock token).
-Notation rwf_tb := (wf_tb token tok_class is_int_ty).
+Notation rwf_tb := (wf_tb token tok_class t_text tok_num is_int_ty).
 Notation rflat_tb := (flat_tb token).
 Notation rerase_tb := (erase_tb token tok_class t_text tok_num ty_name).
 
